@@ -223,6 +223,7 @@ def analyze(ctx, want):
         ex_c, ps_c = run_fn(c, F, LogModel())
         bodies.append((c, ex_c, ps_c))
     okn = False
+    okn_bad = False
     n_calls = 0
     for body, ex_b, ps_b in bodies:
         for p in ps_b:
@@ -238,7 +239,9 @@ def analyze(ctx, want):
                     if m_ and int(m_.group(1)) in upn:       # a captured variable of the closure: its source name
                         return upn[int(m_.group(1))]
                     return s_
-                okn = from_item and nm(c[3][2]).endswith("partition") and nm(c[3][3]).endswith("transitions")
+                this_ = from_item and nm(c[3][2]).endswith("partition") and nm(c[3][3]).endswith("transitions")
+                okn_bad = okn_bad or not this_      # every call on every path (not: the last one looked at)
+                okn = not okn_bad
     its = [M.call_name(t) for bb, t in np_.calls(ADAPTERS)]
     ob("C03.b", "every-group-is-split-against-the-old-partition", okn and n_calls >= 1 and not its, "split_group(group of the old partition, old partition, transitions): %d call path(s); adapters %s" % (n_calls, its), np_.loc())
     pushes = sum(len(list(c.calls(r"Vec::<.*>::(push|extend|append)$|Extend<.*>>::extend"))) for c in [np_] + list(F.closures_of(np_)))
